@@ -19,7 +19,7 @@ class Gen:
     where joins, leaves, client operations and maintenance calls are interleaved at gate granularity."""
 
     def __init__(self, rng, n_nodes=5, n_keys=3, n_init=3, n_join=1, n_leave=1, n_ops=6, kinds=("put", "get", "delete", "append", "remove", "list"),
-                 maint_p=0.35, variant=None, final_reads=True, gates=None):
+                 maint_p=0.35, variant=None, final_reads=True, gates=None, kv_gates=False, ns_gates=False):
         self.rng = rng
         self.nodes = ["n%d" % i for i in range(n_nodes)]
         self.keys = ["k%d" % i for i in range(n_keys)]
@@ -28,7 +28,8 @@ class Gen:
         self.maint_p = maint_p
         self.variant = rng.randrange(4) if variant is None else variant
         self.final_reads = final_reads
-        self.gates = gates or GATES_MEMBERSHIP
+        self.kv_gates = kv_gates
+        self.gates = gates or (GATES_MEMBERSHIP + (["kv:local"] if kv_gates else []) + (["ns:enter"] if ns_gates else []))
 
     def make(self, name):
         rng = self.rng
@@ -91,6 +92,8 @@ class Gen:
                     elif k in ("append", "remove"):
                         st["v"] = str(rng.randrange(1, 3))
                     steps.append(st)
+                    if self.kv_gates and k != "lookup":
+                        active.append(st["op"])      # parks right before the decision under the read lock; resumed later
                 continue
             if active:
                 o = rng.choice(active)
@@ -160,6 +163,7 @@ class Translator:
         self.op_results = {}
         self.kinds = {}
         self.lookups = []
+        self.history = {}     # sid -> acknowledged client operations in execution order (operations are serialised by the driver)
 
     def begin(self, ev):
         self.sid = ev["s"]
@@ -172,6 +176,9 @@ class Translator:
         self.opdone = {}
         self.oplast = {}
         self.opargs = {}
+        self.op_entry_dead = {}
+        self.pgate = {}
+        self.acked = []       # acknowledged client operations of this scenario, in order
         self.lines.append({"act": "Reset", "sid": self.sid, "lay": {"npos": self.nrank, "kpos": self.krank}})
         self.meta.append((self.sid, -1, "begin " + ev.get("name", "")))
 
@@ -218,6 +225,14 @@ class Translator:
             return
         to, tonode = _gate(ev["to"])
         frm, _ = _gate(ev["from"]) if do != "start" else ("", None)
+        # sub-gates inside nodeState.Transition (ns:enter): the operation is parked before the transition it is about to make; nothing
+        # has changed yet.  The protocol action is labelled when the operation reaches its next protocol gate.
+        if do != "start" and frm.startswith("ns:"):
+            frm = self.pgate.get(op, "")
+        if to.startswith("ns:"):
+            return self.add(ev, {"act": "Stutter"})
+        prev_pgate = self.pgate.get(op, "")
+        self.pgate[op] = to
         if to == "blocked":
             self.issues.append("operation %s blocked at step %s of scenario %s" % (op, ev.get("i"), self.sid))
             return self.add(ev, {"act": "Unknown"})
@@ -234,6 +249,10 @@ class Translator:
                 if to == "join:start":
                     return self.add(ev, {"act": "JoinStart", "n": n})
                 return self.add(ev, {"act": "Stutter", "n": n})      # "node is not Inactive"
+            if do != "start" and frm == "" and to == "join:start":
+                return self.add(ev, {"act": "JoinStart", "n": n})
+            if do != "start" and frm == "" and to == "done":
+                return self.add(ev, {"act": "Stutter", "n": n})
             if do == "run":   # several protocol steps in one scheduler step: only usable while setting up
                 return self.add(ev, {"act": "JoinWhole", "n": n})
             if (frm, to) in JOIN_SEQ:
@@ -251,6 +270,8 @@ class Translator:
                 if to == "leave:attempt":
                     return self.add(ev, {"act": "LeaveStart", "n": n})
                 return self.add(ev, {"act": "Stutter", "n": n})
+            if do != "start" and frm == "" and to == "leave:attempt":
+                return self.add(ev, {"act": "LeaveStart", "n": n})
             if do == "run":
                 return self.add(ev, {"act": "LeaveWhole", "n": n})
             if (frm, to) in LEAVE_SEQ:
@@ -260,13 +281,18 @@ class Translator:
             if to == "done":
                 self.lookups.append((self.sid, ev.get("i"), ev.get("res")))
             return self.add(ev, {"act": "Stutter"})
-        # client operation executed atomically (no kv gates)
-        if to != "done":
-            return self.add(ev, {"act": "Unknown:op-%s" % to})
+        # client operation: routing hops up to the kv:local gate change nothing; the last segment (the decision under
+        # surrogateMu.RLock and the store access) is the step the specification judges
         a = self.opargs[op]
+        if do == "start":
+            entry = str(self.keyranks_nodes.get(a.get("at"), -9))
+            self.op_entry_dead[op] = self.prev_state is not None and self.prev_state.get(entry, {}).get("st", "Inactive") in ("Inactive", "Left")
+        if to != "done":
+            if to.startswith("kv:"):
+                return self.add(ev, {"act": "Stutter"})
+            return self.add(ev, {"act": "Unknown:op-%s" % to})
         res = ev.get("res")
-        entry = str(self.keyranks_nodes.get(a.get("at"), -9))
-        if self.prev_state is not None and self.prev_state.get(entry, {}).get("st", "Inactive") in ("Inactive", "Left"):
+        if self.op_entry_dead.get(op):
             return self.add(ev, {"act": "Stutter"})      # the generator picked an entry node that is not a member (yet / any more)
         err = res.get("err") if isinstance(res, dict) else res
         rec = {"act": "Op", "kind": kind, "k": self.kidx[self._keyrank(a["k"])], "arg": int(a.get("v") or 0),
@@ -282,6 +308,9 @@ class Translator:
             rec["rtag"], rec["rv"] = "val", int(res.get("v") or 0)
         elif kind == "list":
             rec["rtag"], rec["rkids"] = "kids", sorted(int(c) for c in res.get("l") or [])
+        if err == "ok":
+            self.history.setdefault(self.sid, []).append({"kind": kind, "k": rec["k"], "arg": rec["arg"], "rv": rec["rv"], "rkids": rec["rkids"],
+                                                          "line": len(self.lines) + 1, "step": ev.get("i")})
         return self.add(ev, rec)
 
     def _keyrank(self, kname):
@@ -459,7 +488,7 @@ def cex_to_scenario(states, name, finish=True, scale_bits=None, lookups_at_end=F
 
 
 # ----------------------------------------------------------------------------- engine shared by C03-C06, C08
-PROP_OF = {"SingleCopy": ("C05", "C03"), "NoLoss": ("C03",), "NoGhost": ("C03",), "Placement": ("C05",), "Reachable": ("C03",),
+PROP_OF = {"read-not-latest": ("C03", "C04"), "SingleCopy": ("C05", "C03"), "NoLoss": ("C03",), "NoGhost": ("C03",), "Placement": ("C05",), "Reachable": ("C03",),
            "OneMembershipOp": ("C06",), "NoStuck": ("C06",), "staleread": ("C04", "C03"), "splitwrite": ("C04", "C03"),
            "nilpred-panic": ("C08",)}
 
@@ -532,6 +561,20 @@ def findings_from(tr, viol, div, quiet, scenarios):
     for q in quiet:
         for w in q["what"]:
             add(w, q["sid"], q["l"], "%s false at the maintenance fixpoint (members %s)" % (w, q["members"]))
+    # the statement itself, on the serialised client history: a read must return what the acknowledged writes before it produced
+    for sid, hist in tr.history.items():
+        val, kids = {}, {}
+        for h in hist:
+            k = h["k"]
+            if h["kind"] == "put": val[k] = h["arg"]
+            elif h["kind"] == "delete": val[k] = 0
+            elif h["kind"] == "append": kids.setdefault(k, set()).add(h["arg"])
+            elif h["kind"] == "remove": kids.setdefault(k, set()).discard(h["arg"])
+            elif h["kind"] == "get" and h["rv"] != val.get(k, 0):
+                add("read-not-latest", sid, h["line"], "Get of key %d returned %d, the latest acknowledged value is %d (step %s)" % (k, h["rv"], val.get(k, 0), h["step"]))
+            elif h["kind"] == "list" and set(h["rkids"]) != kids.get(k, set()):
+                add("read-not-latest", sid, h["line"], "PrefixList of key %d returned %s, the acknowledged appends/removes give %s (step %s)"
+                    % (k, h["rkids"], sorted(kids.get(k, set())), h["step"]))
     for sid, op, kind, msg in tr.panics:
         add("panic", sid, 0, "%s %s: %s" % (kind, op, msg))
     for sid, i, kind, err in tr.client_errors:
